@@ -7,17 +7,17 @@ import (
 func init() {
 	props["C15"] = runC15
 	runners["validnick"] = func(c *Ctx, in map[string]string) {
-		c.compare("validnick", in, bl(girc.IsValidNick(in["s"])), "validnick", "spec.validnick", hx(in["s"]))
+		c.compare("validnick", in, c.twice("validnick", in, func() string { return bl(girc.IsValidNick(in["s"])) }), "validnick", "spec.validnick", hx(in["s"]))
 	}
 	runners["validuser"] = func(c *Ctx, in map[string]string) {
-		c.compare("validuser", in, bl(girc.IsValidUser(in["s"])), "validuser", "spec.validuser", hx(in["s"]))
+		c.compare("validuser", in, c.twice("validuser", in, func() string { return bl(girc.IsValidUser(in["s"])) }), "validuser", "spec.validuser", hx(in["s"]))
 	}
 	runners["validchan"] = func(c *Ctx, in map[string]string) {
-		c.compare("validchan", in, bl(girc.IsValidChannel(in["s"])), "validchan", "spec.validchan", hx(in["s"]))
+		c.compare("validchan", in, c.twice("validchan", in, func() string { return bl(girc.IsValidChannel(in["s"])) }), "validchan", "spec.validchan", hx(in["s"]))
 	}
 	runners["fold"] = func(c *Ctx, in map[string]string) {
 		s := in["s"]
-		out := girc.ToRFC1459(s)
+		out := unhx(c.twice("fold", in, func() string { return hx(girc.ToRFC1459(s)) }))
 		c.compare("fold", in, hx(out), "fold", "spec.fold", hx(s))
 		// the laws themselves, on the implementation
 		if len(out) != len(s) {
